@@ -9,6 +9,12 @@ package main
 //	D faults.trunc    sfnt.Read(file[:k]) (seekable, streaming) is an error for k inside table data
 //	D faults.reader   sfnt.Read(source failing at k) (ReaderAt, Reader) is an error for such k
 //	G faults.tail     what happens for k in the padding after the last table (diagnostic)
+//	D faults.count    for every k, on the real writers (header.Write, the three sfnt writers, cff.Write): the
+//	                  count returned = bytes the destination took, err != nil <=> k < total, success => whole file
+//	V faults.pops     parser.Parser on a source ending at k (EOF or error): every output of a history = model
+//	D faults.pneed    the same histories: an operation needing a byte >= k returns an error (never a short
+//	                  success); operations before that return what they return on the complete input
+//	D faults.cffread  cff.Read(data[:k]) and cff.Read(source failing at k) are errors for every k < len
 
 import (
 	"bytes"
@@ -28,9 +34,11 @@ import (
 	"golang.org/x/image/font/gofont/gosmallcaps"
 
 	"seehuhn.de/go/sfnt"
+	"seehuhn.de/go/sfnt/cff"
 	"seehuhn.de/go/sfnt/glyph"
 	"seehuhn.de/go/sfnt/header"
 	"seehuhn.de/go/sfnt/internal/debug"
+	"seehuhn.de/go/sfnt/parser"
 )
 
 var errInjected = errors.New("injected I/O fault")
@@ -504,6 +512,405 @@ func guard1(f func() byte) (b byte) {
 	return f()
 }
 
+// ---------------------------------------------------------------- parser-level sources
+
+// srcEnding is a ReadSeekSizer over data that ends at offset k: with io.EOF (kind "eof": the
+// file cut at k) or with a non-EOF error (kind "fault", when k < len(data)).  Read delivers
+// short reads according to chunks (the oracle of the parser model).  Size reports len(data).
+type srcEnding struct {
+	data   []byte
+	k      int
+	kind   string
+	pos    int64
+	chunks []int
+	calls  int
+}
+
+func (r *srcEnding) Size() int64 { return int64(len(r.data)) }
+func (r *srcEnding) Seek(off int64, whence int) (int64, error) {
+	if whence != io.SeekStart || off < 0 {
+		return 0, errors.New("bad seek")
+	}
+	r.pos = off
+	return off, nil
+}
+func (r *srcEnding) Read(p []byte) (int, error) {
+	lim := min(r.k, len(r.data))
+	if r.pos >= int64(lim) {
+		if r.kind == "fault" && r.k < len(r.data) {
+			return 0, errInjected
+		}
+		return 0, io.EOF
+	}
+	avail := lim - int(r.pos)
+	w := len(p)
+	if w == 0 {
+		return 0, nil
+	}
+	c := w
+	if len(r.chunks) > 0 {
+		c = r.chunks[r.calls%len(r.chunks)]
+	}
+	c = max(1, min(c, w, avail))
+	r.calls++
+	copy(p, r.data[r.pos:int(r.pos)+c])
+	r.pos += int64(c)
+	return c, nil
+}
+
+// genInput: the deterministic input both sides build from (seed, length); small 16-bit
+// values are frequent so that ReadUint16Slice has work to do.
+func genInput(seed, n int) []byte {
+	b := make([]byte, n)
+	for i := range b {
+		h := (uint64(i/2+seed) * 2654435761 / 65536) % 65536
+		if h%3 == 0 {
+			if i%2 == 1 {
+				b[i] = byte((h / 3) % 6)
+			}
+		} else if i%2 == 0 {
+			b[i] = byte(h / 256)
+		} else {
+			b[i] = byte(h % 256)
+		}
+	}
+	return b
+}
+
+func digest(b []byte) string {
+	s := 0
+	for i, x := range b {
+		s = (s + (i+1)*int(x)) % 1000003
+	}
+	return fmt.Sprintf("%d:%d", len(b), s)
+}
+
+// runFaultOps executes a history on the real parser over a source ending at k.  With stop,
+// the history ends at the first error, printed as ERR (the D stream); otherwise every output
+// with its error class is printed (the V stream).
+func runFaultOps(data []byte, k int, kind string, chunks []int, ops []string, stop bool) string {
+	var outs []string
+	res := guard(func() string {
+		p := parser.New(&srcEnding{data: data, k: k, kind: kind, chunks: chunks})
+		cls := func(err error) string {
+			switch err {
+			case io.ErrUnexpectedEOF:
+				return "eof"
+			case errInjected:
+				return "fault"
+			}
+			return "err:" + strings.ReplaceAll(err.Error(), " ", "_")
+		}
+		for _, op := range ops {
+			var o string
+			var err error
+			var n int
+			name := op
+			if i := strings.IndexByte(op, ':'); i >= 0 {
+				name = op[:i]
+				fmt.Sscan(op[i+1:], &n)
+			}
+			switch name {
+			case "seek":
+				err = p.SeekPos(int64(n))
+				o = "unit"
+			case "discard":
+				err = p.Discard(n)
+				o = "unit"
+			case "bytes":
+				var b []byte
+				b, err = p.ReadBytes(n)
+				o = "data:" + digest(b)
+			case "read":
+				buf := make([]byte, n)
+				var got int
+				got, err = p.Read(buf)
+				if err == nil {
+					// a nil error with got < n is printed as it is: a short success
+					o = "data:" + digest(buf[:got])
+				} else if !stop {
+					switch err {
+					case io.ErrUnexpectedEOF:
+						outs = append(outs, fmt.Sprintf("short:%s@%d", digest(buf[:got]), p.Pos()))
+					case errInjected:
+						outs = append(outs, fmt.Sprintf("fshort:%s@%d", digest(buf[:got]), p.Pos()))
+					default:
+						outs = append(outs, fmt.Sprintf("%s@%d", cls(err), p.Pos()))
+					}
+					continue
+				}
+			case "u8":
+				var v uint8
+				v, err = p.ReadUint8()
+				o = fmt.Sprintf("num:%d", v)
+			case "u16":
+				var v uint16
+				v, err = p.ReadUint16()
+				o = fmt.Sprintf("num:%d", v)
+			case "i16":
+				var v int16
+				v, err = p.ReadInt16()
+				o = fmt.Sprintf("int:%d", v)
+			case "u32":
+				var v uint32
+				v, err = p.ReadUint32()
+				o = fmt.Sprintf("num:%d", v)
+			case "u16s":
+				var v []uint16
+				v, err = p.ReadUint16Slice()
+				l := make([]int, len(v))
+				for i, x := range v {
+					l[i] = int(x)
+				}
+				o = "nums:" + ints(l)
+			case "pos":
+				o = fmt.Sprintf("num:%d", p.Pos())
+			case "size":
+				o = fmt.Sprintf("num:%d", p.Size())
+			default:
+				o = "bad-op"
+			}
+			if err != nil {
+				if stop {
+					outs = append(outs, "ERR")
+					return ""
+				}
+				o = cls(err)
+			}
+			outs = append(outs, fmt.Sprintf("%s@%d", o, p.Pos()))
+		}
+		return ""
+	})
+	if res != "" {
+		return canonPanic(res)
+	}
+	return strings.Join(outs, ";")
+}
+
+// ---------------------------------------------------------------- CFF data
+
+var cffCache = map[string][]byte{}
+
+// getCFF returns CFF table data: "<font spec>" is (*cff.Font).Write of that font;
+// "<font spec>+idx:<n>:<each>" replaces the empty local-subrs INDEX, which this library writes
+// as the last section, by an INDEX of n entries of `each` bytes: a layout with a large INDEX
+// as the last section (as other producers write), no offset in the file changes.
+func getCFF(spec string) []byte {
+	fontMu.Lock()
+	defer fontMu.Unlock()
+	if d, ok := cffCache[spec]; ok {
+		return d
+	}
+	base, mod, _ := strings.Cut(spec, "+")
+	var buf bytes.Buffer
+	if err := getFontLocked(base).AsCFF().Write(&buf); err != nil {
+		panic(err)
+	}
+	d := buf.Bytes()
+	if mod != "" {
+		var n, each int
+		if _, err := fmt.Sscanf(mod, "idx:%d:%d", &n, &each); err != nil {
+			panic("bad CFF spec " + spec)
+		}
+		if d[len(d)-2] != 0 || d[len(d)-1] != 0 {
+			panic("the last CFF section is not an empty INDEX")
+		}
+		d = d[:len(d)-2]
+		d = append(d, byte(n>>8), byte(n), 2)
+		for i := 0; i <= n; i++ {
+			o := 1 + i*each
+			d = append(d, byte(o>>8), byte(o))
+		}
+		for i := 0; i < n*each; i++ {
+			d = append(d, 0x0b) // return
+		}
+	}
+	cffCache[spec] = d
+	return d
+}
+
+func cffVerdict(r parser.ReadSeekSizer) (v byte) {
+	defer func() {
+		if rec := recover(); rec != nil {
+			v = 'P'
+		}
+	}()
+	if _, err := cff.Read(r); err != nil {
+		return 'E'
+	}
+	return 'A'
+}
+
+func init() {
+	ops["faults.count"] = func(f Fields) string {
+		kind := f["w"]
+		total := f.Int("total")
+		var call func(w io.Writer) (int64, error, bool)
+		if spec, ok := f["font"]; ok {
+			font := getFont(spec)
+			api := f["api"]
+			if api == "CFF" {
+				cf := font.AsCFF()
+				call = func(w io.Writer) (int64, error, bool) { return 0, cf.Write(w), false }
+			} else {
+				call = func(w io.Writer) (int64, error, bool) { return writeAPI(font, api, w) }
+			}
+		} else {
+			tabs := parseTabLens(f)
+			sc := uint32(f.Int("scaler"))
+			call = func(w io.Writer) (int64, error, bool) {
+				n, err := header.Write(w, sc, tabs)
+				return n, err, true
+			}
+		}
+		full := &faultWriter{kind: "late", k: 1 << 40}
+		if _, err, _ := call(full); err != nil || full.acc != total {
+			return fmt.Sprintf("bad-total:%d", full.acc)
+		}
+		var sb strings.Builder
+		for _, k := range parseKs(f) {
+			w := &faultWriter{kind: kind, k: k}
+			n, err, hasN := call(w)
+			switch {
+			case !hasN:
+				sb.WriteByte('_')
+			case n == int64(w.acc):
+				sb.WriteByte('=')
+			default:
+				sb.WriteByte('#') // the count is not what the destination took
+			}
+			if err != nil {
+				sb.WriteString("!-")
+			} else if w.acc == total && (!hasN || n == int64(total)) {
+				sb.WriteString(".T")
+			} else {
+				sb.WriteString(".t") // success without the whole file
+			}
+		}
+		return sb.String()
+	}
+
+	pops := func(stop bool) opFn {
+		return func(f Fields) string {
+			data := genInput(f.Int("inseed"), f.Int("len"))
+			ks := parseKs(f)
+			out := make([]string, len(ks))
+			for i, k := range ks {
+				out[i] = runFaultOps(data, k, f["kind"], f.Ints("chunks"), f.List("ops", ";"), stop)
+			}
+			return strings.Join(out, "|")
+		}
+	}
+	ops["faults.pops"] = pops(false)
+	ops["faults.pneed"] = pops(true)
+
+	ops["faults.cffread"] = func(f Fields) string {
+		data := getCFF(f["cff"])
+		if len(data) != f.Int("len") {
+			return fmt.Sprintf("bad-len:%d", len(data))
+		}
+		ks := parseKs(f)
+		out := make([]byte, len(ks))
+		for i, k := range ks {
+			if f["mode"] == "trunc" {
+				out[i] = cffVerdict(bytes.NewReader(data[:min(k, len(data))]))
+			} else {
+				out[i] = cffVerdict(&srcEnding{data: data, k: k, kind: "fault"})
+			}
+		}
+		return string(out)
+	}
+}
+
+// countCases: the D predicate on the real writers, every k.
+func countCases(c *Ctx, args string, total int, nontriv bool) {
+	for _, kind := range honestKinds {
+		for _, ks := range blocks(0, total+2) {
+			out := c.Case(Direct, "faults.count", fmt.Sprintf("%s total=%d w=%s ks=%s", args, total, kind, ks), nontriv)
+			for i := 0; i+3 <= len(out) && !strings.HasPrefix(out, "bad") && !strings.HasPrefix(out, "panic"); i += 3 {
+				c.Stat("count_predicate_"+kind, out[i:i+3])
+			}
+		}
+	}
+}
+
+// parserCases: histories on parser.Parser over sources ending at every k.
+func parserCases(c *Ctx, n int, hist int) {
+	r := c.Rng
+	seed := r.Intn(100000)
+	c.Stat("parser_input_len", bucket(n))
+	for h := 0; h < hist; h++ {
+		var opsl []string
+		nops := r.Range(3, 14)
+		for j := 0; j < nops; j++ {
+			switch r.Intn(12) {
+			case 0, 1, 2:
+				opsl = append(opsl, fmt.Sprintf("read:%d", r.Range(1, 4000)))
+			case 3:
+				opsl = append(opsl, fmt.Sprintf("read:%d", Pick(r, []int{0, 1, 1023, 1024, 1025, 2048, 2049, 3072})))
+			case 4:
+				opsl = append(opsl, fmt.Sprintf("seek:%d", r.Intn(n+3)))
+			case 5:
+				opsl = append(opsl, fmt.Sprintf("bytes:%d", Pick(r, []int{0, 1, 2, 100, 1023, 1024, r.Intn(1025)})))
+			case 6:
+				opsl = append(opsl, fmt.Sprintf("discard:%d", r.Intn(700)))
+			case 7:
+				opsl = append(opsl, "u16s")
+			default:
+				opsl = append(opsl, Pick(r, []string{"u8", "u16", "i16", "u32", "pos", "size", "u16s"}))
+			}
+		}
+		if h == 0 {
+			// a bulk read of several chunks first: the fault falls after the first chunk for most k
+			opsl = append([]string{fmt.Sprintf("read:%d", min(n, r.Range(2100, 4000)))}, opsl...)
+		}
+		var chunks []int
+		switch r.Intn(3) {
+		case 1:
+			chunks = []int{Pick(r, []int{1, 7, 100, 1023})}
+		case 2:
+			for j := r.Range(2, 5); j > 0; j-- {
+				chunks = append(chunks, Pick(r, []int{1, 2, 3, 100, 1023, 1024, r.Range(1, 1200)}))
+			}
+		}
+		for _, op := range opsl {
+			c.Stat("parser_ops", strings.SplitN(op, ":", 2)[0])
+		}
+		for _, kind := range []string{"eof", "fault"} {
+			for a := 0; a <= n; a += 64 {
+				args := fmt.Sprintf("inseed=%d len=%d kind=%s chunks=%s ops=%s ks=%d-%d", seed, n, kind, ints(chunks),
+					strings.Join(opsl, ";"), a, min(a+63, n))
+				c.Case(Verdict, "faults.pops", args, true)
+				out := c.Case(Direct, "faults.pneed", args, true)
+				for _, h := range strings.Split(out, "|") {
+					if strings.HasSuffix(h, "ERR") {
+						c.Stat("parser_history_"+kind, "ends in error")
+					} else {
+						c.Stat("parser_history_"+kind, "complete")
+					}
+				}
+			}
+		}
+	}
+}
+
+// cffReadCases: cff.Read on CFF data cut at every k and through a source failing at every k.
+func cffReadCases(c *Ctx, spec string) {
+	data := getCFF(spec)
+	c.Stat("cff_data_bytes", bucket(len(data)))
+	if strings.Contains(spec, "+idx") {
+		c.Stat("cff_last_section", "large INDEX")
+	} else {
+		c.Stat("cff_last_section", "empty INDEX")
+	}
+	for _, mode := range []string{"trunc", "fault"} {
+		for _, ks := range blocks(0, len(data)) {
+			out := c.Case(Direct, "faults.cffread", fmt.Sprintf("cff=%s len=%d mode=%s ks=%s", spec, len(data), mode, ks), true)
+			countVerdicts(c, "cff.Read_"+mode, out)
+		}
+	}
+}
+
 // ---------------------------------------------------------------- generator
 
 const faultBlock = 256
@@ -641,6 +1048,11 @@ func fontCases(c *Ctx, spec string, apis []string, everyK bool) {
 				countWrites(c, "write_"+kind, out)
 			}
 		}
+		if everyK {
+			countCases(c, fmt.Sprintf("font=%s api=%s", spec, api), total, true)
+		} else {
+			countCases(c, fmt.Sprintf("scaler=%d tabs=%s", scaler, tabLensArg(ents)), total, true)
+		}
 		if !everyK {
 			// every k at the level of header.Write, with zero-filled tables of the same lengths
 			for _, kind := range honestKinds {
@@ -658,7 +1070,11 @@ func fontCases(c *Ctx, spec string, apis []string, everyK bool) {
 		if err := font.AsCFF().Write(rec); err != nil {
 			panic(err)
 		}
-		for _, kind := range honestKinds {
+		kinds := honestKinds
+		if !everyK {
+			kinds = []string{Pick(r, honestKinds)} // large font in the quick tier: one destination kind
+		}
+		for _, kind := range kinds {
 			for _, ks := range blocks(0, rec.acc+2) {
 				out := c.Case(Verdict, "faults.cffwrite", fmt.Sprintf("font=%s lens=%s w=%s ks=%s", spec, ints(rec.lens), kind, ks), true)
 				for _, s := range strings.Split(out, ",") {
@@ -667,6 +1083,11 @@ func fontCases(c *Ctx, spec string, apis []string, everyK bool) {
 			}
 		}
 		c.Stat("cff_sections", bucket(len(rec.lens)))
+		if everyK {
+			countCases(c, fmt.Sprintf("font=%s api=CFF", spec), rec.acc, true)
+		}
+		cffReadCases(c, spec)
+		cffReadCases(c, fmt.Sprintf("%s+idx:%d:%d", spec, r.Range(2, 6), r.Range(400, 900)))
 	}
 }
 
@@ -733,6 +1154,7 @@ func synthCases(c *Ctx, i int) {
 	}
 	data := buf.Bytes()
 	_, _, hdrLen, _ := layoutOf(data)
+	countCases(c, fmt.Sprintf("scaler=%d tabs=%s", sc, strings.Join(parts, ",")), total, len(tabs) >= 2)
 	c.Stat("fault_points", "synthetic:"+bucket(total))
 	for _, ks := range blocks(0, total) {
 		for _, mode := range []string{"trunc", "fault"} {
@@ -819,5 +1241,15 @@ func areaFaults(c *Ctx) {
 	}
 	for _, j := range jobs[:min(len(jobs), max(c.N, 1))] {
 		j()
+	}
+	// the buffered parser on sources ending at every k
+	plens := []int{r.Range(2100, 2600), r.Range(3100, 4200)}
+	hist := 2
+	if c.Tier == "thorough" {
+		plens = []int{0, 1, 1023, 1024, 1025, 2048, 2049, r.Range(2100, 3000), r.Range(3000, 4200), 5000}
+		hist = 4
+	}
+	for _, n := range plens {
+		parserCases(c, n, hist)
 	}
 }
